@@ -72,3 +72,57 @@ Theorem cw_nosuffix_correct_for_every_built_automaton :
     cw_find_overlapping_no_suffix_iter V A (encode_utf8 cs) = Ok (map (to_bytes V cs) (spec_nosuffix V pvs cs)).
 Proof. exact cw_built_nosuffix. Qed.
 Print Assumptions cw_nosuffix_correct_for_every_built_automaton.
+
+(* ---- C05 AS ONE DECLARATIVE STATEMENT (Theory/SpecNoSuffix.v) -----------------------------------------
+   The no-suffix search reports exactly the triples (s, e, v) such that h[s..e] is an occurrence
+   carrying v and no occurrence ending at e starts before s ([longest_ending_at]) -- hence one match
+   per end position that has an occurrence, nothing for the other positions -- in strictly increasing
+   order of end position. *)
+From DV Require Import Theory.SpecNoSuffix Theory.Utf8Spec Theory.Utf8Spec2 Proofs.BuildTrie Proofs.BuildProps.
+From Coq Require Import Sorted.
+
+Theorem spec_nosuffix_is_the_longest_match_per_end :
+  forall (V : Type) (pvs : list (list N * V)) (h : list N), NoDup (map fst pvs) ->
+    (forall s e v, In (s, e, v) (spec_nosuffix V pvs h) <-> longest_ending_at V pvs h s e v)
+    /\ StronglySorted (end_lt V) (spec_nosuffix V pvs h).
+Proof. intros V pvs h Hn. split; [exact (spec_nosuffix_characterised V pvs h Hn)|exact (spec_nosuffix_increasing V pvs h)]. Qed.
+Print Assumptions spec_nosuffix_is_the_longest_match_per_end.
+
+Theorem bw_nosuffix_search_reports_the_longest_match_per_end :
+  forall (V : Type) (veqb : V -> V -> bool), (forall a b, veqb a b = true <-> a = b) ->
+  forall nfb (pvs : list (list N * V)) (A : bw_automaton V),
+    (forall p v, In (p, v) pvs -> Forall (fun b => b < 256) p) -> 4 * total_len V pvs <= U32_MAX - 1 ->
+    bw_build_with_values V Standard nfb pvs = Ok A ->
+  forall h, Forall (fun b => b < 256) h ->
+    exists ms, bw_find_overlapping_no_suffix_iter V A h = Ok ms
+      /\ (forall s e v, In (s, e, v) ms <-> longest_ending_at V pvs h s e v) /\ StronglySorted (end_lt V) ms.
+Proof.
+  intros V veqb Hv nfb pvs A Hb Hs HA h Hh. exists (spec_nosuffix V pvs h).
+  split; [exact (built_nosuffix V veqb Hv nfb pvs A Hb Hs HA h Hh)|].
+  destruct (bw_build_ok_lemma V Standard nfb pvs A Hs HA) as (Hvd & _).
+  apply spec_build_error_none_iff_valid in Hvd as (_ & _ & Hnd).
+  split; [exact (spec_nosuffix_characterised V pvs h Hnd)|exact (spec_nosuffix_increasing V pvs h)].
+Qed.
+Print Assumptions bw_nosuffix_search_reports_the_longest_match_per_end.
+
+Theorem cw_nosuffix_search_reports_the_longest_match_per_end :
+  forall (V : Type) (veqb : V -> V -> bool), (forall a b, veqb a b = true <-> a = b) ->
+  forall nfb (pvs : list (list N * V)) (A : cw_automaton V),
+    (forall p v, In (p, v) pvs -> Forall scalar p) -> 4 * total_len V pvs <= U32_MAX - 1 ->
+    cw_build_with_values V Standard nfb pvs = Ok A ->
+  forall cs, Forall scalar cs ->
+    exists ms, cw_find_overlapping_no_suffix_iter V A (encode_utf8 cs) = Ok ms
+      /\ (forall s e v, In (s, e, v) ms <-> longest_ending_at V (bpvs V pvs) (encode_utf8 cs) s e v)
+      /\ StronglySorted (end_lt V) ms.
+Proof.
+  intros V veqb Hv nfb pvs A Hsc Hs HA cs Hcs. exists (spec_nosuffix V (bpvs V pvs) (encode_utf8 cs)).
+  destruct (cw_build_ok_lemma V Standard nfb pvs A Hs HA) as (Hvd & _).
+  apply spec_build_error_none_iff_valid in Hvd as (_ & Hne0 & Hnd).
+  assert (Hne : forall p v, In (p, v) pvs -> p <> []).
+  { intros p w Hp. rewrite Forall_forall in Hne0. apply Hne0. apply in_map_iff. exists (p, w). auto. }
+  split.
+  - rewrite (cw_built_nosuffix V veqb Hv nfb pvs A Hs HA cs Hcs). f_equal.
+    symmetry. exact (spec_nosuffix_bytes_eq_chars V pvs Hne Hsc Hnd cs Hcs).
+  - split; [exact (spec_nosuffix_characterised V _ _ (bpvs_nodup V pvs Hsc Hnd))|exact (spec_nosuffix_increasing V _ _)].
+Qed.
+Print Assumptions cw_nosuffix_search_reports_the_longest_match_per_end.
